@@ -7,6 +7,7 @@ import TM.Mirror
 import TM.SpanLine
 import TM.Reader
 import TM.SpanScreen
+import TM.SpanTerm
 /-!
 # Driver — line-protocol executable running the model in lock-step with the harness.
 
@@ -178,7 +179,29 @@ structure DState where
   lastRows : Array String := #[]     -- last printed rows: main rows then alt rows
   rbuf : RBuf := RBuf.init
   rdr : Rdr := Rdr.init []
+  st : Option STerm := none            -- the run-level terminal (span policy, rune mode), in lock-step
+  lastS : Array String := #[]         -- last printed run-level rows
+  stepToks : List (Tok × Nat) := []   -- the tokens of the current step
   off : Nat := 0                     -- rows announced through ScrollLines since the last observation
+
+
+/-! ### the run-level terminal in lock-step (`S` lines: the stored runs of every row) -/
+
+def srowsOf (t : STerm) : Array String :=
+  ((t.main.lines ++ t.alt.lines).map fun l => toString l.width ++ ":" ++ spansStr l.spans).toArray
+
+/-- the tokens of one parser step applied to the run-level terminal: a stretch of text is ONE run
+    handed to `writeString` (as `ptyReadOne` does), every other token goes through `STerm.apply` -/
+def applyStepS (cw : Nat → Nat) (st : STerm) (raw : Bytes) (toks : List (Tok × Nat)) : STerm :=
+  let flush (st : STerm) (run : Bytes) (rw : Nat) : STerm :=
+    if run.isEmpty then st else st.setScr (SScr.writeString cw (run.length + 1) st.scr run rw)
+  let rec go (st : STerm) (raw : Bytes) (run : Bytes) (rw : Nat) : List (Tok × Nat) → STerm
+    | [] => flush st run rw
+    | (.text _ cp, n) :: rest => go st (raw.drop n) (run ++ raw.take n) (rw + max (cw cp) 1) rest
+    | (tk, n) :: rest =>
+      let st := flush st run rw
+      go (st.apply cw tk).1 (raw.drop n) [] 0 rest
+  go st raw [] 0 toks
 
 def rowsOf (t : Term) : Array String :=
   ((t.main.grid.map rowStr) ++ (t.alt.grid.map rowStr)).toArray
@@ -203,9 +226,15 @@ def printObs (d : DState) (evs : List Ev) (full : Bool) : IO DState := do
     if full || d.lastRows.size ≠ rows.size || d.lastRows[i]! ≠ rows[i]! then
       let (b, y) := if i < hMain then (0, i) else (1, i - hMain)
       out.putStrLn s!"R {b} {y} {rows[i]!}"
+  let srows := match d.st with | some st => srowsOf st | none => #[]
+  for i in [0:srows.size] do
+    if full || d.lastS.size ≠ srows.size || d.lastS[i]! ≠ srows[i]! then
+      let hM := match d.st with | some st => st.main.lines.length | none => 0
+      let (b, y) := if i < hM then (0, i) else (1, i - hM)
+      out.putStrLn s!"S {b} {y} {srows[i]!}"
   out.putStrLn "."
   out.flush
-  return { d with lastRows := rows, off := 0 }
+  return { d with lastRows := rows, off := 0, lastS := srows }
 
 /-- consume tokens until `consumed = target`; stops early when input is incomplete -/
 partial def advance (wt : WidthTable) (d : DState) (target : Nat) (evs : List Ev) (tags : List String) :
@@ -232,9 +261,15 @@ partial def advance (wt : WidthTable) (d : DState) (target : Nat) (evs : List Ev
       let sS : Bool := match tk with
         | .text _ cp => ({ sc with top := 0 } : Scr).putOff d.t.pol (wt.lookup cp) > 0
         | _ => false
-      advance wt { d with t := t', pending := d.pending.drop n, consumed := d.consumed + n,
+      advance wt { d with t := t', pending := d.pending.drop n, consumed := d.consumed + n, stepToks := d.stepToks ++ [(tk, n)],
                           off := d.off + d.t.scrollOff wt.lookup tk } target (evs ++ e)
         (tags ++ [if k then "tK" else if sS then "tS" else tokTag tk])
+
+/-- after a step: bring the run-level terminal up to date with the tokens consumed from `raw` -/
+def stepS (wt : WidthTable) (d0 d1 : DState) : DState :=
+  match d1.st with
+  | some st => { d1 with st := some (applyStepS wt.lookup st d0.pending d1.stepToks), stepToks := [] }
+  | none => { d1 with stepToks := [] }
 
 partial def loop (wt : WidthTable) (h : IO.FS.Stream) (d : DState) : IO Unit := do
   let line ← h.getLine
@@ -243,7 +278,9 @@ partial def loop (wt : WidthTable) (h : IO.FS.Stream) (d : DState) : IO Unit := 
   match ws with
   | ["case", pol, w, hh] =>
     let p := if pol = "blank" then WidePolicy.blank else WidePolicy.keep
-    let d' : DState := { t := Term.init p w.toNat! hh.toNat! }
+    let d' : DState := { t := Term.init p w.toNat! hh.toNat!,
+                         -- the real terminal is built 80×14 and then resized to the size of the case
+                         st := if pol = "blank" then none else some ((STerm.init 80 14).resize wt.lookup w.toNat! hh.toNat!).1 }
     let d' ← printObs d' [] true
     loop wt h d'
   | ["feed", hx] =>
@@ -252,7 +289,8 @@ partial def loop (wt : WidthTable) (h : IO.FS.Stream) (d : DState) : IO Unit := 
     | none => IO.println "bad-hex"; loop wt h d
   | ["adv", n, "eof"] =>
     -- the backend is exhausted: the step may have read an incomplete control sequence to the end
-    let (d1, evs, tags, ok) := advance wt d n.toNat! [] []
+    let (d1, evs, tags, ok) := advance wt { d with stepToks := [] } n.toNat! [] []
+    let d1 := stepS wt d d1
     let (d', ok) :=
       if ok then (d1, true) else
         match d1.pending with
@@ -267,7 +305,8 @@ partial def loop (wt : WidthTable) (h : IO.FS.Stream) (d : DState) : IO Unit := 
     let d' ← printObs d' evs false
     loop wt h d'
   | ["adv", n] =>
-    let (d', evs, tags, ok) := advance wt d n.toNat! [] []
+    let (d', evs, tags, ok) := advance wt { d with stepToks := [] } n.toNat! [] []
+    let d' := stepS wt d d'
     if !ok then
       (← IO.getStdout).putStrLn s!"X framing consumed={d'.consumed} target={n}"
     (← IO.getStdout).putStrLn ("T " ++ (if tags.isEmpty then "-" else ",".intercalate tags))
@@ -275,14 +314,16 @@ partial def loop (wt : WidthTable) (h : IO.FS.Stream) (d : DState) : IO Unit := 
     loop wt h d'
   | ["resize", w, hh] =>
     let (t', evs) := d.t.resize w.toNat! hh.toNat!
-    let d' ← printObs { d with t := t' } evs false
+    let st' := d.st.map fun st => (st.resize wt.lookup w.toNat! hh.toNat!).1
+    let d' ← printObs { d with t := t', st := st' } evs false
     loop wt h d'
   | ["eof"] =>
     -- the backend reported EOF: an incomplete control sequence has been read to the end and is
     -- dropped; an incomplete character stays unconsumed
     -- whatever is complete in the received bytes is interpreted first (an implementation that
     -- reports the end of the stream with complete sequences unprocessed has lost them)
-    let (d0, evs0, _, _) := advance wt d (d.consumed + d.pending.length) [] []
+    let (d0, evs0, _, _) := advance wt { d with stepToks := [] } (d.consumed + d.pending.length) [] []
+    let d0 := stepS wt d d0
     let d' := match d0.pending with
       | b :: _ => if isPrintableByte b then d0 else { d0 with consumed := d0.consumed + d0.pending.length, pending := [] }
       | [] => d0
@@ -462,7 +503,7 @@ partial def loop (wt : WidthTable) (h : IO.FS.Stream) (d : DState) : IO Unit := 
         let sS : Bool := ({ sc with top := 0 } : Scr).putOff t.pol w > 0
         tags := tags ++ [if k then "tK" else if sS then "tS" else "t"]
     (← IO.getStdout).putStrLn ("T " ++ ",".intercalate tags)
-    let d' ← printObs { d with t := t, off := off, pending := d.pending.drop allBytes.length, consumed := d.consumed + allBytes.length } [] false
+    let d' ← printObs { d with t := t, off := off, st := none, pending := d.pending.drop allBytes.length, consumed := d.consumed + allBytes.length } [] false
     loop wt h d'
   | ["end"] => loop wt h d
   | [] => loop wt h d
